@@ -164,16 +164,23 @@ class ResultSet(dict[str, dict[Path, list[Result]]]):
         return list(self.keys())
 
     def __or__(self, other):
-        result = ResultSet(super().__or__(other))
-        for k in self.keys() | other.keys():
-            result[k] = list_dict_or(self[k], other[k])
+        result = type(self)()
+        for k in list(self.keys()) + [k for k in other.keys() if k not in self]:
+            result[k] = list_dict_or(self.get(k, {}), other.get(k, {}))
         return result
+
+    def __ior__(self, other):
+        # dict.__ior__ is update(): it would replace, not merge, the per-rule entries
+        merged = self | other
+        self.clear()
+        self.update(merged)
+        return self
 
 
 def list_dict_or(
     dictionary: dict[Any, list[Any]], other: dict[Any, list[Any]]
 ) -> dict[Path, list[Any]]:
-    result_dict = other | dictionary
-    for k in other.keys() | dictionary.keys():
-        result_dict[k] = dictionary[k] + other[k]
+    result_dict = {}
+    for k in list(dictionary.keys()) + [k for k in other.keys() if k not in dictionary]:
+        result_dict[k] = dictionary.get(k, []) + other.get(k, [])
     return result_dict
